@@ -1779,10 +1779,44 @@ fn check_group_case(c: &mut Case, s: &GroupSpec) {
                     w.write_group(&mut cur, g, VERS[to].0).map(|_| cur.into_inner())
                 })
             };
-            if let (Ok(Ok(a)), Ok(Ok(b))) = (wr(&obj), wr(&exp)) {
+            let direct = wr(&obj);
+            if let (Ok(Ok(a)), Ok(Ok(b))) = (&direct, wr(&exp)) {
                 c.count("convert_bytes_compared", 1);
-                if a != b {
-                    c.violate(format!("convert|group.bytes|{pair}"), format!("converted group serialises differently from the same content built for the target version (first difference at byte {})", vh_common::first_diff(&a, &b)), json!({}));
+                if *a != b {
+                    c.violate(format!("convert|group.bytes|{pair}"), format!("converted group serialises differently from the same content built for the target version (first difference at byte {})", vh_common::first_diff(a, &b)), json!({}));
+                }
+            }
+            // the same conversion through the editor session (load root + group, convert_to_version, save_group): what it saves is
+            // the group converted and written for the version the session now has
+            if let (Ok(Ok(a)), Ok(mut root)) = (&direct, WmoParser::new().parse_root(&mut Cursor::new(seed_root()))) {
+                root.version = VERS[from].0;
+                let mut g = build_group(s, valid_group_flags(s.flags, from));
+                g.header.group_index = 0;
+                let saved = lib(|| -> Result<Vec<u8>, wow_wmo::WmoError> {
+                    let mut ed = wow_wmo::WmoEditor::new(root);
+                    ed.add_group(g)?;
+                    ed.convert_to_version(VERS[to].0)?;
+                    let mut cur = Cursor::new(Vec::new());
+                    ed.save_group(&mut cur, 0)?;
+                    Ok(cur.into_inner())
+                });
+                c.count("editor_sessions", 1);
+                match saved {
+                    Err(p) => c.violate(format!("convert-panic|editor|{}|{pair}", p.sig()), format!("editor session panicked: {}", p.msg), json!({})),
+                    Ok(Err(e)) => {
+                        c.count("editor_session_err", 1);
+                        c.note(json!({"editor_session_err": format!("{pair}: {e}")}));
+                    }
+                    Ok(Ok(e)) => {
+                        c.count("editor_saves_compared", 1);
+                        // group_index is part of the header: compare with the direct conversion of the same group at index 0
+                        let mut g0 = build_group(s, valid_group_flags(s.flags, from));
+                        g0.header.group_index = 0;
+                        let want = lib(|| conv.convert_group(&mut g0, VERS[to].0, VERS[from].0)).ok().and_then(|r| r.ok()).and_then(|_| wr(&g0).ok()).and_then(|r| r.ok()).unwrap_or_else(|| a.clone());
+                        if e != want {
+                            c.violate(format!("convert|editor-save-group.bytes|{pair}"), format!("WmoEditor: load, convert_to_version({}), save_group wrote bytes that differ from converting and writing the same group for that version (first difference at byte {})", VERS[to].1, vh_common::first_diff(&e, &want)), json!({}));
+                        }
+                    }
                 }
             }
         }
